@@ -72,8 +72,8 @@ def phi_1D(xx, nu=1.0, theta0=1.0, gamma=0, h=0.5, theta=None, beta=1, deme_ids=
     # Evaluate the denominator integral.
     integrand = lambda xi: numpy.exp(-4*gamma*h*xi - 2*gamma*(1-2*h)*xi**2
                                      - Qadjust)
-    int0, eps = scipy.integrate.quad(integrand, 0, 1, epsabs=0,
-                                     points=numpy.linspace(0,1,41))
+    int0, eps = scipy.integrate.quad(integrand, 0, 1, epsabs=0, limit=200,
+                                     points=_quad_points(0, 1))
 
     ints = numpy.empty(len(xx))
     # Evaluate the numerator integrals
@@ -81,8 +81,12 @@ def phi_1D(xx, nu=1.0, theta0=1.0, gamma=0, h=0.5, theta=None, beta=1, deme_ids=
         # In this case, the prefactor is not divergent, so we can evaluate
         # the numerator as before, using the Qadjust if necessary.
         for ii,q in enumerate(xx):
-            val, eps = scipy.integrate.quad(integrand, q, 1, epsabs=0,
-                                            points=numpy.linspace(q,1,41))
+            if q < 1:
+                val, eps = scipy.integrate.quad(integrand, q, 1, epsabs=0,
+                                                limit=200,
+                                                points=_quad_points(q, 1))
+            else:
+                val = 0
             ints[ii] = val
         phi = numpy.exp(4*gamma*h*xx + 2*gamma*(1-2*h)*xx**2)*ints/int0
     else:
@@ -91,7 +95,12 @@ def phi_1D(xx, nu=1.0, theta0=1.0, gamma=0, h=0.5, theta=None, beta=1, deme_ids=
         integrand = lambda xi, q: numpy.exp(-4*gamma*h*(xi-q) -
                                             2*gamma*(1-2*h)*(xi**2-q**2))
         for ii,q in enumerate(xx):
-            val, eps = scipy.integrate.quad(integrand, q, 1, args=(q,))
+            if q < 1:
+                val, eps = scipy.integrate.quad(integrand, q, 1, args=(q,),
+                                                limit=200,
+                                                points=_quad_points(q, 1))
+            else:
+                val = 0
             ints[ii] = val
         phi = ints/int0
 
@@ -111,6 +120,16 @@ def phi_1D(xx, nu=1.0, theta0=1.0, gamma=0, h=0.5, theta=None, beta=1, deme_ids=
         phi[-1] = min(phi[-1], phi[-2])
 
     return phi * nu*theta0 * 4.*beta/(beta+1.)**2
+
+def _quad_points(a, b):
+    """
+    Break points for the quadratures in phi_1D: for strong selection the
+    integrands are concentrated within ~1/|gamma| of an end point, which an
+    adaptive rule started on evenly spaced intervals never finds.
+    """
+    w = (b-a)*numpy.logspace(-9, -1, 17)
+    return numpy.unique(numpy.concatenate([a+w, b-w,
+                                           numpy.linspace(a,b,41)[1:-1]]))
 
 def phi_1D_genic(xx, nu=1.0, theta0=1.0, gamma=0, theta=None, beta=1):
     """
